@@ -6,6 +6,7 @@ from .base import Result, RuleError
 from .facts import callee
 from .flow import ExprBuilder, cfg_of, canon, walk, fmt_expr, return_expr, enumerate_paths
 from .logic import Ctx, is_call
+from .inline import views
 
 BUF = "buf::buf_impl::Buf"
 
@@ -17,6 +18,83 @@ def erase_sites(e):
     if e[0] == "ucall":
         return ("ucall", e[1], tuple(erase_sites(a) for a in e[2]))
     return tuple(erase_sites(x) if isinstance(x, tuple) else x for x in e)
+
+
+def advance_probs(facts, b, rb):
+    eb = ExprBuilder(b, facts, inline=True)
+    R = erase_sites(canon(return_expr(rb, facts, inline=True)))
+    cfg = cfg_of(b)
+    calls = []
+    for bi, t in b.calls():
+        if b.blocks[bi]["cleanup"]:
+            continue
+        fn = callee(t)
+        if fn is None:
+            continue
+        loc = (bi, len(b.blocks[bi]["stmts"]))
+        calls.append((bi, fn, (fn.get("res") or fn)["path"], [canon(eb.operand(a, loc)) for a in t["args"]]))
+    # state-changing operations: inner advance calls, unsafe helpers, stores through self, set_position, drain
+    effect_blocks = []
+    for (bi, fn, p, a) in calls:
+        nm = fn["name"]
+        if nm in ("advance", "advance_unchecked", "inc_start", "set_position", "drain", "advance_mut") or (fn.get("unsafe") and (fn.get("res") or fn).get("local")):
+            effect_blocks.append((bi, nm, a))
+    for bi, blk in enumerate(b.blocks):
+        if blk["cleanup"]:
+            continue
+        for si, s in enumerate(blk["stmts"]):
+            if s["k"] == "assign" and s["pl"]["l"] == 1 and "*" in s["pl"]["p"]:
+                effect_blocks.append((bi, "store", []))
+    how = []
+    probs = []
+    if not effect_blocks:
+        probs.append("advance has no effect")
+    for (bi, nm, a) in effect_blocks:
+        # delegation of the count to an inner buffer: the inner advance enforces its own bound
+        if nm == "advance" and len(a) == 2:
+            # the wrapper keeps its own bound where it narrows the inner buffer (Take: cnt <= limit)
+            keeps_limit = any(x[0] == "field" and x[2] == "limit" for x in walk(R))
+            if keeps_limit:
+                ctx = Ctx(b, bi, facts)
+                lim = [x for x in walk(R) if x[0] == "field" and x[2] == "limit"][0]
+                if not ctx.le(("param", 2), lim):
+                    probs.append("inner advance without the wrapper's own bound cnt <= limit")
+                    continue
+            how.append("delegates to inner advance")
+            continue
+        if nm == "drain":
+            rng = a[1] if len(a) > 1 else None
+            if isinstance(rng, tuple) and rng[0] == "agg" and "RangeTo" in str(rng[1]) and rng[2][0] == ("param", 2):
+                how.append("VecDeque::drain(..cnt) panics beyond len")
+            else:
+                probs.append("drain with a range other than ..cnt")
+            continue
+        if nm == "store":
+            # `*self = &self[cnt..]`: the re-slice panics when cnt > len
+            ok = False
+            for (cbi, fn2, p2, a2) in calls:
+                if fn2["name"] == "index" and len(a2) == 2 and isinstance(a2[1], tuple) and a2[1][0] == "agg" and "RangeFrom" in str(a2[1][1]) \
+                        and a2[1][2][0] == ("param", 2) and cfg.dominates(cbi, bi):
+                    ok = True
+            if ok:
+                how.append("re-slice self[cnt..] panics beyond len")
+                continue
+            # bookkeeping after a delegated advance of the same count (Take: limit -= cnt)
+            deleg = [x for x in effect_blocks if x[1] == "advance" and len(x[2]) == 2 and x[2][1] == ("param", 2) and cfg.dominates(x[0], bi)]
+            if deleg and Ctx(b, bi, facts).le(("param", 2), R):
+                how.append("bookkeeping after the delegated advance")
+                continue
+            if deleg:
+                lims = [x for x in walk(R) if x[0] == "field" and x[2] == "limit"]
+                if lims and Ctx(b, bi, facts).le(("param", 2), lims[0]):
+                    how.append("bookkeeping after the delegated advance (cnt <= limit)")
+                    continue
+        ctx = Ctx(b, bi, facts, norm=erase_sites)
+        if ctx.le(("param", 2), R):
+            how.append("guard cnt <= %s before %s" % (fmt_expr(R)[:50], nm))
+        else:
+            probs.append("`%s` is reached without a dominating guard cnt <= remaining() [= %s]" % (nm, fmt_expr(R)[:60]))
+    return probs, how
 
 
 def run(facts):
@@ -34,79 +112,14 @@ def run(facts):
         b = facts.by_did[adv[0]["did"]]
         rb = facts.by_did[rem[0]["did"]]
         key = "impl Buf for %s::advance" % im["self_ty"]
-        eb = ExprBuilder(b, facts, inline=True)
-        R = erase_sites(canon(return_expr(rb, facts, inline=True)))
-        cfg = cfg_of(b)
-        calls = []
-        for bi, t in b.calls():
-            if b.blocks[bi]["cleanup"]:
-                continue
-            fn = callee(t)
-            if fn is None:
-                continue
-            loc = (bi, len(b.blocks[bi]["stmts"]))
-            calls.append((bi, fn, (fn.get("res") or fn)["path"], [canon(eb.operand(a, loc)) for a in t["args"]]))
-        # state-changing operations: inner advance calls, unsafe helpers, stores through self, set_position, drain
-        effect_blocks = []
-        for (bi, fn, p, a) in calls:
-            nm = fn["name"]
-            if nm in ("advance", "advance_unchecked", "inc_start", "set_position", "drain", "advance_mut") or (fn.get("unsafe") and (fn.get("res") or fn).get("local")):
-                effect_blocks.append((bi, nm, a))
-        for bi, blk in enumerate(b.blocks):
-            if blk["cleanup"]:
-                continue
-            for si, s in enumerate(blk["stmts"]):
-                if s["k"] == "assign" and s["pl"]["l"] == 1 and "*" in s["pl"]["p"]:
-                    effect_blocks.append((bi, "store", []))
-        how = []
-        probs = []
-        if not effect_blocks:
-            probs.append("advance has no effect")
-        for (bi, nm, a) in effect_blocks:
-            # delegation of the count to an inner buffer: the inner advance enforces its own bound
-            if nm == "advance" and len(a) == 2:
-                # the wrapper keeps its own bound where it narrows the inner buffer (Take: cnt <= limit)
-                keeps_limit = any(x[0] == "field" and x[2] == "limit" for x in walk(R))
-                if keeps_limit:
-                    ctx = Ctx(b, bi, facts)
-                    lim = [x for x in walk(R) if x[0] == "field" and x[2] == "limit"][0]
-                    if not ctx.le(("param", 2), lim):
-                        probs.append("inner advance without the wrapper's own bound cnt <= limit")
-                        continue
-                how.append("delegates to inner advance")
-                continue
-            if nm == "drain":
-                rng = a[1] if len(a) > 1 else None
-                if isinstance(rng, tuple) and rng[0] == "agg" and "RangeTo" in str(rng[1]) and rng[2][0] == ("param", 2):
-                    how.append("VecDeque::drain(..cnt) panics beyond len")
-                else:
-                    probs.append("drain with a range other than ..cnt")
-                continue
-            if nm == "store":
-                # `*self = &self[cnt..]`: the re-slice panics when cnt > len
-                ok = False
-                for (cbi, fn2, p2, a2) in calls:
-                    if fn2["name"] == "index" and len(a2) == 2 and isinstance(a2[1], tuple) and a2[1][0] == "agg" and "RangeFrom" in str(a2[1][1]) \
-                            and a2[1][2][0] == ("param", 2) and cfg.dominates(cbi, bi):
-                        ok = True
-                if ok:
-                    how.append("re-slice self[cnt..] panics beyond len")
-                    continue
-                # bookkeeping after a delegated advance of the same count (Take: limit -= cnt)
-                deleg = [x for x in effect_blocks if x[1] == "advance" and len(x[2]) == 2 and x[2][1] == ("param", 2) and cfg.dominates(x[0], bi)]
-                if deleg and Ctx(b, bi, facts).le(("param", 2), R):
-                    how.append("bookkeeping after the delegated advance")
-                    continue
-                if deleg:
-                    lims = [x for x in walk(R) if x[0] == "field" and x[2] == "limit"]
-                    if lims and Ctx(b, bi, facts).le(("param", 2), lims[0]):
-                        how.append("bookkeeping after the delegated advance (cnt <= limit)")
-                        continue
-            ctx = Ctx(b, bi, facts, norm=erase_sites)
-            if ctx.le(("param", 2), R):
-                how.append("guard cnt <= %s before %s" % (fmt_expr(R)[:50], nm))
-            else:
-                probs.append("`%s` is reached without a dominating guard cnt <= remaining() [= %s]" % (nm, fmt_expr(R)[:60]))
+        probs, how = advance_probs(facts, b, rb)
+        if probs:
+            # a guard that moved into a private helper (`ensure_available(avail, cnt)`): judge the inlined view
+            for ib in views(facts, b):
+                p2, h2 = advance_probs(facts, ib, rb)
+                if not p2:
+                    probs, how = [], h2 + ["with helpers inlined"]
+                    break
         if probs:
             res.bad(key, b.loc(), "; ".join(probs))
         else:
